@@ -28,7 +28,7 @@ FORMAT_THEOREMS = [
 HOLDER_THEOREMS = [
     "C15_site_target_kernel", "C15_site_method_loc_kernel", "C15_site_unpack_static", "C15_codec_creation_frame",
     "C15_codec_holders_disjoint", "C15_codec_complete", "C15_decoder_creation_frame_complete",
-    "C15_frame_history_holders", "C15_selfref_codec_refuted", "C15_selfref_codec_late",
+    "C15_frame_history_holders", "C15_frame_class_statements", "C15_selfref_codec_refuted", "C15_selfref_codec_late",
 ]
 
 CASE_TYPE = "env * (bool * mode * opts) * ty * val * res val"
@@ -1201,6 +1201,7 @@ def run(ctx: vlib.Ctx):
     ctx.theorems("props/C15_holders.vo", HOLDER_THEOREMS, kernels=["K115a"])
     from harness import c15holders
     c15holders.run_holders_tie(ctx, [x for x in loaded if not x[0].wide])
+    c15holders.run_flags_tie(ctx, [x for x in loaded if not x[0].wide])
 
     for (sc, vals, src, mod) in loaded:
         L.unload_module(mod)
